@@ -253,6 +253,19 @@ def c03_oracle(ops, outs):
     for op in ops[1:]:
         k, a = kv(op)
         if k == "upd" and a.get("room") not in (None, ""): moved.add(a.get("row"))
+    # rows that ONE peer wrote twice at the same clock value (the known same-millisecond shape: the writer keeps its second
+    # write whatever the signatures are); two peers writing at the same millisecond is the tie-break's own business
+    global _REWRITTEN
+    _REWRITTEN = set()
+    last_write, now = {}, 0
+    for op in ops[1:]:
+        k, a = kv(op)
+        if k == "clock": now = a.get("t", now)
+        elif k == "day": now = ("day", a.get("add"), now)
+        elif k in ("new", "upd", "ref", "unref"):
+            key = (a.get("p"), a.get("row"))
+            if last_write.get(key) == now: _REWRITTEN.add(a.get("row"))
+            last_write[key] = now
     for room0, rounds, quiet, f, peers in final_settles(ops, outs):
       for room in (["1", "2"] if room0 == "0" else [room0]):
         if not quiet:
@@ -263,7 +276,7 @@ def c03_oracle(ops, outs):
         for i, p in enumerate(peers[1:], 1):
             if p.content(room) == base: continue
             sig = _classify_divergence(room, peers, rights)
-            if sig not in KNOWN_CAUSES and _moved_row_involved(peers, moved):
+            if sig in MOVED_SYMPTOMS and _moved_row_involved(peers, moved):
                 sig = "moved-row-diverges"
             res.append((sig, "room %s: peers 0 and %d differ after a quiet round" % (room, i)))
             found = True
@@ -273,7 +286,7 @@ def c03_oracle(ops, outs):
             for i, p in enumerate(peers[1:], 1):
                 if p.visible_edges(room) != be:
                     sig = _classify_edges(room, peers)
-                    if sig not in KNOWN_CAUSES and _moved_row_involved(peers, moved):
+                    if sig in MOVED_SYMPTOMS and _moved_row_involved(peers, moved):
                         sig = "moved-row-diverges"
                     res.append((sig, "room %s: peers 0 and %d show different references" % (room, i)))
                     found = True
@@ -302,10 +315,10 @@ def _summary(p, room):
     return (last, v["daily"], v["hist"])
 
 
-# causes that have their own, narrower, entry: never re-labelled
-KNOWN_CAUSES = {"same-millisecond-versions-of-one-row-kept", "same-millisecond-deletion-records-collide",
-                "room-summary-compares-first-entity-only", "greater-version-refused-author-lacks-all-rows-right",
-                "reference-older-than-winning-version-not-propagated"}
+# the symptoms that the per-room treatment of a moved row produces (a row or a reference present on some peers only);
+# a pure last-writer-wins failure (two peers keep different versions of a row in ONE room) is never re-labelled
+MOVED_SYMPTOMS = {"rows-missing-after-quiescence", "references-differ-after-quiescence", "reference-of-deleted-row-differs",
+                  "deleted-row-present-on-some-peers", "content-differs-after-quiescence"}
 
 
 def _moved_row_involved(peers, moved):
@@ -341,8 +354,11 @@ def _same_ms_versions(peers):
     return None
 
 
+_REWRITTEN = set()
+
+
 def _classify_divergence(room, peers, rights):
-    if _same_ms_versions(peers) is not None:
+    if _same_ms_versions(peers) in _REWRITTEN:
         return "same-millisecond-versions-of-one-row-kept"
     contents = [p.content(room) for p in peers]
     for x in range(len(peers)):
